@@ -177,6 +177,26 @@ def c04_require(agg):
     return need
 
 
+# ------------------------------------------------------------------ C05
+
+def c05_plan(tier, seed):
+    q = tier == "quick"
+    out = []
+    for v, nb in (("os-debug", 6), ("memfd-debug", 5), ("inproc-debug", 3)):
+        out += jobs(v, "c05", nb if q else nb * 3, None, {"cases": 40 if q else 500}, timeout=1500)
+    return out
+
+
+def c05_require(agg):
+    st = agg["stats"]
+    need = []
+    for k, n in (("zero_length_regions", 5), ("non_page_multiple_regions", 100), ("path_exec-child", 20), ("reread_after_drop", 50),
+                 ("child_reread_after_carrier_dropped", 10)):
+        if st.get(k, 0) < n:
+            need.append("%s < %d" % (k, n))
+    return need
+
+
 # ------------------------------------------------------------------ C19
 
 def c19_plan(tier, seed):
@@ -230,6 +250,21 @@ NOTES = ("Runtime monitoring and sanitizers. ./check <id> rebuilds the harness (
 NOT_APPLICABLE = {}
 
 PROPS = {
+    "C05": {
+        "plan": c05_plan,
+        "require": c05_require,
+        "level": "exploration",
+        "level_text": "Exploration: thousands of regions with lengths dense around 0, 1, page+-1, 2 pages+-1 plus log-uniform lengths up to 32 MiB, created "
+                      "by both constructors, cloned 0..3 times, sent 1..8 per message in shuffled order between endpoints, are compared byte for byte in "
+                      "the creator, every clone, the receiving process (same process or an exec'd child reporting digests) and again after the sender's "
+                      "copies and the carrying channel are gone; three backings (shm_open, memfd, in-process).",
+        "level_note": "Contents are regenerated from a per-region id, so any length or content mix-up between regions is visible; platform-level "
+                      "zero-length regions belong to C18.",
+        "technique": "runtime monitoring: content oracle on shared-memory regions across clones, processes and drop orders, three backings",
+        "rule": "case = one region; distinct = (length class: offset to 0/page/2 pages or log2 bucket with page-alignment flag, constructor, regions in "
+                "the message, clones, receive path, build); all counted cases are compared byte for byte",
+        "assumptions": ["the exec'd reader reports FNV digests rather than raw bytes"],
+    },
     "C04": {
         "plan": c04_plan,
         "require": c04_require,
